@@ -195,7 +195,7 @@ theorem removeProc_some {s : St} {pid : Nat} {p : ProcC} (h : alGet s.procs pid 
       { s with tents := modifyNth (p.threads.foldl (fun ts e => modifyNth ts e.2.h (endE time)) s.tents)
                           p.main.h (endE time),
                pents := modifyNth s.pents p.h (fun e => { e with end_ := some time }),
-               parked := if p.samples.isEmpty then s.parked else s.parked ++ [(p.samples, p.mapq)],
+               parked := if p.samples.isEmpty then s.parked else s.parked ++ [(p.samples, p.mapq, p.pid)],
                procs := alDel s.procs pid } := by
   unfold removeProc
   rw [h]
@@ -635,7 +635,8 @@ theorem step_sample (s : St) (pid tid t : Nat) (km : Bool) (period ip : Nat) (ch
       let p := putThread gt.2.1 tid { gt.2.2 with lastTs := some t }
       putProc gt.1 { p with samples := p.samples ++
         [{ th := gt.2.2.h, t := conv gt.1 t, tmono := t, cpu := period,
-           stack := sampleStack gt.1.cfg km ip chain, gpid := pid, gtid := tid }] } := rfl
+           stack := sampleStack gt.1.cfg km ip chain, tlabel := threadLabel gt.2.2.name pid tid,
+           gpid := pid, gtid := tid }] } := rfl
 
 theorem sim_sample {s : St} {l : Life.S} (h : Sim s l) (pid tid t : Nat) (km : Bool) (period ip : Nat)
     (chain : List Nat) :
